@@ -16,8 +16,8 @@ namespace GoZero.C09
 
 open Spec
 
-/-- a registration attempt: method, pattern as written, handler (`none` = nil). -/
-abbrev Reg := String × String × Option H
+
+
 
 /-- the router after a sequence of `Handle` calls (rejected calls leave it unchanged). -/
 def runHandle (r : Router) : List Reg → Router
